@@ -68,6 +68,9 @@ impl FrameStore {
         if idx >= len {
             return None;
         }
+        if self.frames.get(idx)?.seq != seq {
+            return None;
+        }
         Some(idx)
     }
 }
